@@ -245,6 +245,49 @@ func (p *c06) Init(tier string, seed int64) {
 			}
 		}
 	}
+	// what stands in an else branch: an if statement of its own first, last, twice, alone - followed and preceded by
+	// other content. An else branch that begins with an if is no elseif: everything in it belongs to it
+	for shape := 0; shape < 9; shape++ {
+		for mask := 0; mask < 8; mask++ {
+			shape, mask := shape, mask
+			p.enum = append(p.enum, func() (*Program, string) {
+				ctx := map[string]interface{}{"a": mask&1 != 0, "b": mask&2 != 0, "c": mask&4 != 0}
+				ifb := func() *gen.NIf { return &gen.NIf{Conds: []gen.Expr{nm("b")}, Bodies: [][]gen.Node{{tx("B")}}} }
+				ifc := func() *gen.NIf { return &gen.NIf{Conds: []gen.Expr{nm("c")}, Bodies: [][]gen.Node{{tx("E")}}} }
+				var els []gen.Node
+				switch shape {
+				case 0:
+					els = []gen.Node{ifb(), tx("C")}
+				case 1:
+					n := ifb()
+					n.HasElse, n.Else = true, []gen.Node{tx("D")}
+					els = []gen.Node{n, tx("C")}
+				case 2:
+					n := ifb()
+					n.Conds, n.Bodies = append(n.Conds, nm("c")), append(n.Bodies, []gen.Node{tx("E")})
+					els = []gen.Node{n, tx("C"), pr(nm("a"))}
+				case 3:
+					els = []gen.Node{tx("C"), ifb()}
+				case 4:
+					els = []gen.Node{ifb(), ifc()}
+				case 5:
+					els = []gen.Node{ifb(), &gen.NSet{Name: "z", X: num(1)}, pr(nm("z")), ifc(), tx("C")}
+				case 6:
+					els = []gen.Node{&gen.NComment{S: " first "}, ifb(), tx("C")}
+				case 7:
+					inner := ifc()
+					inner.HasElse, inner.Else = true, []gen.Node{ifb(), tx("G")}
+					els = []gen.Node{inner, tx("C")}
+				case 8:
+					els = []gen.Node{ifb()}
+				}
+				one := &gen.NIf{Conds: []gen.Expr{nm("a")}, Bodies: [][]gen.Node{{tx("A")}}, HasElse: true, Else: els}
+				two := &gen.NIf{Conds: []gen.Expr{nm("a"), &gen.EBin{Op: "and", L: nm("a"), R: nm("c")}}, Bodies: [][]gen.Node{{tx("A")}, {tx("never")}}, HasElse: true, Else: els}
+				loop := &gen.NFor{Val: "i", Seq: &gen.EArr{}, Body: []gen.Node{tx("never")}, HasElse: true, Else: els}
+				return mkProg(ctx, tx("<"), one, tx("|"), two, tx("|"), loop, tx(">")), fmt.Sprintf("else-body/shape=%d/mask=%d", shape, mask)
+			})
+		}
+	}
 	// truthiness of condition values of every scalar class
 	for ci, cv := range []interface{}{true, false, 1, 0, 2.5, "a", "", nil, "x y"} {
 		ci, cv := ci, cv
